@@ -28,6 +28,8 @@ func runC15(p *load.Program, r *oblig.Report) {
 	c15RunLoop(p, r)
 	c15CoordinatorDeadlines(p, r)
 	c15BackoffExceptions(p, r)
+	c15StartAccounted(p, r)
+	c15JoinedIDAfterJoin(p, r)
 	c15KeepMemberID(p, r, "C15.R9 the member id survives a failed re-join")
 	// the coordinator signals a rebalance (or an unknown member, an illegal generation) with the error code of its
 	// answer: the Conn operations report that code whenever the round trip itself succeeded (C11.R9)
